@@ -108,6 +108,7 @@ const FAULTS: &[&str] = &[
   "interface:second-instantiation-unsatisfied",
   "wrong-type:same-named-class-of-another-module",
   "match:struct-pattern-case-missing",
+  "bound:violated-by-unbounded-type-parameter",
 ];
 
 pub fn fault_kinds() -> &'static [&'static str] {
@@ -274,6 +275,52 @@ pub fn inject(p: &mut ProgramIr, t: &mut Tape, kind_idx: usize) -> Option<Fault>
         return Some(Fault { kind, site: format!("{class}.{field}"), module: user });
       }
       return None;
+    }
+    "bound:violated-by-unbounded-type-parameter" => {
+      // a new generic function with an *unbounded* type parameter V passes V to a bounded type parameter
+      // of an existing function (explicitly, or by inference from arguments of type V)
+      let mut cands: Vec<(usize, usize, usize)> = vec![];
+      for (mi, m) in p.modules.iter().enumerate() {
+        for (ci, c) in m.classes.iter().enumerate() {
+          for (ki, mem) in c.members.iter().enumerate() {
+            if !mem.is_method
+              && !c.is_interface
+              && c.tparams.is_empty()
+              && mem.tparams.len() == 1
+              && mem.tparams[0].bound.is_some()
+              && mem.params.iter().any(|(_, t)| *t == Ty::TParam(mem.tparams[0].name.clone()))
+              && mem.params.iter().all(|(_, t)| matches!(t, Ty::Int | Ty::Bool | Ty::Str) || *t == Ty::TParam(mem.tparams[0].name.clone()))
+            {
+              cands.push((mi, ci, ki));
+            }
+          }
+        }
+      }
+      if cands.is_empty() {
+        return None;
+      }
+      let (mi, ci, ki) = cands[t.choose(cands.len())];
+      let path = p.modules[mi].path.clone();
+      let cname = p.modules[mi].classes[ci].name.clone();
+      let target = p.modules[mi].classes[ci].members[ki].clone();
+      let u = target.tparams[0].name.clone();
+      let v = Ty::TParam("V".into());
+      let args: Vec<Expr> = target
+        .params
+        .iter()
+        .map(|(_, ty)| match ty {
+          Ty::Int => Expr::new(Ty::Int, EK::Int(1)),
+          Ty::Bool => Expr::new(Ty::Bool, EK::Bool(true)),
+          Ty::Str => Expr::new(Ty::Str, EK::Str("s".into())),
+          _ => Expr::new(v.clone(), EK::Var("unboundedValue".into())),
+        })
+        .collect();
+      let explicit = t.bool(1, 2);
+      let ret = target.ret.subst(&[(u, v.clone())]);
+      let call = Expr::new(ret, EK::StaticCall { module: path.clone(), class: cname.clone(), member: target.name.clone(), targs: if explicit { vec![v.clone()] } else { vec![] }, args });
+      let body = Expr::new(Ty::Unit, EK::Block { stmts: vec![Stmt::Let { pat: Pat::Wild, annot: None, init: call }], last: None });
+      p.modules[mi].classes[ci].members.push(Member { name: "faultUnboundedCaller".into(), is_method: false, is_public: true, tparams: vec![TParamDef { name: "V".into(), bound: None }], params: vec![("unboundedValue".into(), v)], ret: Ty::Unit, body: Some(body) });
+      return Some(Fault { kind, site: format!("{cname}.{}/{}", target.name, if explicit { "explicit-type-argument" } else { "inferred-type-argument" }), module: path });
     }
     "bound:violated" => {
       // members with a bounded type parameter: (module, class, member, tparam index, indices of parameters typed by it)
